@@ -140,7 +140,13 @@ impl WalRun {
         appends
     }
     fn st(&self) -> J {
-        json!(self.files.values().map(|f| json!([f.n, f.w, f.s])).collect::<Vec<_>>())
+        // n and s come from the hook; w (records that reached the OS) is read from the real file, because a
+        // BufWriter also writes through when its buffer fills up or a record is larger than the buffer
+        json!(self.files.iter().map(|(seq, f)| {
+            let p = self.dir().join("wal").join(format!("wal_{seq:08}.log"));
+            let (ends, _) = boundaries(&p);
+            json!([f.n, (ends.len() as u64).min(f.n), f.s])
+        }).collect::<Vec<_>>())
     }
     /// After (re)opening: every record on disk counts as appended, written and synced.
     fn reset_files_from_disk(&mut self) {
@@ -161,6 +167,15 @@ impl WalRun {
         if self.edges.is_empty() { EdgeId::new(9999) } else { self.edges[(k as usize) % self.edges.len()] }
     }
     fn value(k: u64) -> Value {
+        // every 13th value is large: around the BufWriter capacity (8 KiB), 64 KiB and beyond
+        if k % 13 == 5 {
+            return match (k / 13) % 4 {
+                0 => Value::String("x".repeat(8180 + (k as usize % 30)).into()),
+                1 => Value::String("y".repeat(70_000).into()),
+                2 => Value::List((0..20_000).map(Value::Int64).collect::<Vec<_>>().into()),
+                _ => Value::String("z".repeat(300_000).into()),
+            };
+        }
         match k % 8 {
             0 => Value::Int64(k as i64),
             1 => Value::String(format!("s{k}").into()),
@@ -406,6 +421,11 @@ pub fn main(o: &Opts) -> i32 {
                             2 => { let cands: Vec<u64> = ends.iter().copied().filter(|e| *e >= *sb && *e <= *len).collect(); if cands.is_empty() { *sb } else { cands[rng.random_range(0..cands.len())] } }
                             _ => if len > sb { rng.random_range(*sb..=*len) } else { *sb },
                         };
+                        // sometimes a tear inside the next record's 4-byte length prefix
+                        let c = if rng.random_range(0..4) == 0 {
+                            let base = ends.iter().copied().filter(|e| *e >= *sb && *e < *len).last().unwrap_or(*sb);
+                            (base + rng.random_range(1..=3)).min(*len).max(*sb)
+                        } else { c };
                         (*seq, c)
                     }).collect();
                     let img = WalRun::img_of(&disk, &bytes);
@@ -440,6 +460,9 @@ pub fn main(o: &Opts) -> i32 {
                             for _ in 0..3 { if len > sb { v.push(rng.random_range(*sb..=*len)); } }
                             // torn header / payload / crc of the first unsynced record
                             if let Some(first_end) = ends.iter().find(|e| **e > *sb) { for d in [1u64, 3, 5] { if first_end - d > *sb { v.push(first_end - d); } } }
+                            // torn inside the 4-byte length prefix of each unsynced record
+                            let starts: Vec<u64> = std::iter::once(*sb).chain(ends.iter().copied().filter(|e| *e >= *sb && *e < *len)).collect();
+                            for st in starts { for d in 1..=3u64 { if st + d <= *len { v.push(st + d); } } }
                             v
                         };
                         ls.sort(); ls.dedup();
